@@ -51,6 +51,10 @@ def make_case(key, origin, expr, vkey, **extra):
         c["s"] = None
         c["render_error"] = f"{type(e).__name__}: {e}"[:300]
         return c
+    try:
+        c["clashes"] = {nm: [repr(o) for o in objs] for nm, objs in rc.name_clashes(expr, "code").items()}
+    except Exception:  # pylint: disable=broad-except
+        c["clashes"] = {}
     rd = rc.Reader("code")
     try:
         c["sides"] = rd.read_top(expr)
@@ -240,11 +244,22 @@ def run(ctx):
         c = make_case(f"source#{idx}", "source", e, None, sample_index=idx, srepr=sympy.srepr(e))
         c["vkey"] = f"C17:source:{c['s']}" if c["s"] is not None else f"C17:source-raises:{sympy.srepr(e)[:300]}"
         cases.append(c)
+    # (iv) curated shape classes, every tier and seed
+    for label, e in rc.curated_expressions(sample_symbols()):
+        c = make_case(f"curated:{label}", "curated", e, f"C17:curated:{label}", srepr=sympy.srepr(e))
+        cases.append(c)
+    ctx.coverage["curated_cases"] = sum(1 for c in cases if c["origin"] == "curated")
     ctx.log(f"{len(cases)} cases built")
 
     # rendering failures
     live = []
     for c in cases:
+        for nm, objs in (c.get("clashes") or {}).items():
+            ctx.violation(f"C17:name-clash:{c['key']}:{nm}", f"{len(objs)} different symbols of {c['key']} are shown under "
+                f"the same display name {nm!r}: read with one value per printed name the rendering {c['s']!r} cannot "
+                f"denote the expression for all values", {"kind": "violation", "item": c["key"], "origin": c["origin"],
+                "shared_name": nm, "symbols": objs, "rendering": c["s"], "original": str(c["expr"]),
+                "sample_index": c.get("sample_index")}, found_input=True)
         if c["s"] is None:
             ctx.violation(c["vkey"] or f"C17:{c['key']}", f"code_str raises on {c['key']}: {c['render_error']}",
                 {"kind": "violation", "item": c["key"], "original": str(c["expr"]), "error": c["render_error"]}, True)
@@ -348,6 +363,10 @@ def replay(ctx, rep):
             if idx == rep.get("sample_index"):
                 expr = e
                 break
+    elif rep.get("origin") == "curated" or item.startswith("curated:"):
+        for label, e in rc.curated_expressions(sample_symbols()):
+            if f"curated:{label}" == item:
+                expr = e
     else:
         items, _ = rc.catalogue_items()
         for it in items:
@@ -359,6 +378,12 @@ def replay(ctx, rep):
     c = make_case(item, rep.get("origin", "catalogue"), expr, rep.get("key"))
     print("original   :", expr)
     print("rendering  :", c["s"], "(recorded:", rep.get("rendering"), ")")
+    clash = 0
+    for nm, objs in (c.get("clashes") or {}).items():
+        print(f"{len(objs)} different symbols are shown under the same name {nm!r}: {objs}")
+        clash = 1
+    if clash:
+        return 1
     if c["s"] is None or c["sides"] is None:
         print("no rendering / no reading:", c.get("render_error"), c.get("reason"))
         return 1
